@@ -589,6 +589,9 @@ func (svr *StrictServerImpl) loadTrustVector(
 func loadInlineTrustVector(inline *openapi.InlineTrustVector) (
 	*sparse.Vector, error,
 ) {
+	if inline.Size <= 0 {
+		return nil, fmt.Errorf("invalid size=%#v", inline.Size)
+	}
 	var entries []sparse.Entry
 	for idx, entry := range inline.Entries {
 		if entry.I < 0 || entry.I >= inline.Size {
